@@ -94,6 +94,7 @@ static incstate_t *inctop = 0;
 /* prevent unbridled recursion */
 #define MAX_INCLUDE_DEPTH 32
 static int incnum;
+static int include_macro_depth;	/* nesting of #include MACRO indirections */
 
 /* If more than this is needed, the code needs help :-) */
 #define MAX_FUNCTION_DEPTH 10
@@ -451,7 +452,15 @@ static void handle_include (const char *inc_name, int optional) {
           q = d->exps; /* #include MACRO */
           while (isspace (*q))
             q++;
+          /* #define A A / #include A would recurse until the C stack is gone */
+          if (include_macro_depth >= 8)
+            {
+              include_error ("Too many levels of macros in #include");
+              return;
+            }
+          include_macro_depth++;
           handle_include (q, optional);
+          include_macro_depth--;
         }
       else
         {
@@ -476,12 +485,19 @@ static void handle_include (const char *inc_name, int optional) {
     }
   *p = 0;
 
-  if (++incnum == MAX_INCLUDE_DEPTH)
+  /* incnum counts the headers that are open (it is taken back when one ends): it must
+   * not move for an #include that is refused or not found, or the limit is stepped over
+   * once and never applies again - a header that includes itself twice then never ends */
+  if (incnum + 1 >= MAX_INCLUDE_DEPTH)
     {
       include_error ("Maximum include depth exceeded");
+      /* fatal for this compilation: a header that includes itself twice would otherwise go
+       * on to visit two to the power of the limit inclusions */
+      lex_fatal++;
     }
   else if ((fd = inc_open (buf, name)) != -1) /* open header file */
     {
+      incnum++;
       is = ALLOCATE (incstate_t, TAG_COMPILER, "handle_include: 1");
       is->yyin_desc = yyin_desc;
       is->line = current_line;
@@ -2595,6 +2611,7 @@ void start_new_file (int fd, const char* pre_text) {
   pragmas = DEFAULT_PRAGMAS;
   nexpands = 0;
   incnum = 0;
+  include_macro_depth = 0;
   current_line = 1;
   current_line_base = 0;
   current_line_saved = 0;
